@@ -125,11 +125,47 @@ def post_blocks(V):
                                      'value': repr(val), 'expected_to_contain': esc, 'got': got[:200]})
 
 
+def post_spellings(V):
+    """a quoting option written in another letter case, with a value, or next to other options is either not accepted by the
+    compiler (nothing is rendered) or it quotes: a template that compiles with such a spelling never emits the value raw"""
+    from DocumentTemplate.DT_HTML import HTML
+    from DocumentTemplate.DT_String import String
+    import html
+    spell = ['html_quote', 'HTML_QUOTE', 'Html_Quote', 'html_Quote', 'html_quote=1', 'HTML_QUOTE=1', 'html_quote="yes"',
+             'fmt=html-quote', 'FMT=html-quote', 'fmt="html-quote"', 'fmt=HTML-QUOTE', 'Fmt=Html-Quote']
+    others = ['', ' upper', ' size=99', ' null="-"', ' newline_to_br', ' missing=""', ' UPPER', ' Size=99']
+    vals = ['<script>alert("x")</script>', "a&b 'c'", 'x > y']
+    for sp in spell:
+        for oth in others:
+            for pos in (0, 1):
+                a = (sp + oth) if pos == 0 else (oth.strip() + ' ' + sp).strip()
+                for cls, src in ((HTML, '<dtml-var x %s>' % a), (HTML, '<!--#var x %s-->' % a), (String, '%%(x %s)s' % a),
+                                 (HTML, '<dtml-var expr="x" %s>' % a), (HTML, '<dtml-in s><dtml-var x %s></dtml-in>' % a)):
+                    try:
+                        t = cls(src)
+                        t.cook()
+                    except Exception:  # noqa  not accepted: nothing to render
+                        V.count('spellings_rejected')
+                        continue
+                    for v in vals:
+                        V.count('renderings')
+                        try:
+                            got = t(x=v, s=[1])
+                        except Exception:  # noqa
+                            continue
+                        low = got.lower()
+                        if any(ch in low.replace('<br />', '').replace('<br>', '') for ch in '<>"\'') or \
+                                html.unescape(low.replace('<br />', '')).replace('\n', '') != v.lower():
+                            V.violation({'kind': 'departure', 'clause': 'escaped-value-option-spelling', 'source': src, 'value': v,
+                                         'expected': html.escape(v, True), 'got': got[:200]})
+
+
 def main(tier):
     rng = random.Random(common.seed())
     def posts(V):
         post(V)
         post_blocks(V)
+        post_spellings(V)
     return vc.run(PID, tier, sweeps(tier, rng), classify, post=posts, invs=['NoRawSpecial', 'PlainUntouched'],
                   assumptions=['html.escape(s, quote=True) is the reference escaping (the machine\'s Esc transcribes its five '
                                'replacements); Python codecs are trusted for the bytes variants'],
